@@ -193,6 +193,27 @@ def i64(v):
   return int(v & 0xFFFFFFFFFFFFFFFF).to_bytes(8, 'little').hex()
 
 
+# --------------------------------------------------------------------------------------------- classification
+
+# sizes "set after mjModel construction" (mjmodel.h): mj_makeModel does not take them; the loader copies them from the file
+DERIVED_AFTER = 'nnames_map'
+
+
+def derived_sizes(lib):
+  i = lib.model_sizes.index(DERIVED_AFTER)
+  return set(lib.model_sizes[i:]) - {'nbuffer'}
+
+
+def problem_fingerprint(p):
+  """Root-cause family of an out-of-range reference found in an accepted model. p = [field, index, value, why, kind, num]."""
+  field, _, value, _, kind, num = p
+  if value == -1:
+    return 'mjb-accepts-minus1', 'the value -1 is accepted in a reference field that has no "none" value'
+  if kind == 'adr' and value + num > INT_MAX:
+    return 'mjb-adr-plus-num-int-overflow', 'adr+num overflows int in the range check'
+  return 'mjb-unvalidated:' + field, 'field is not range-checked'
+
+
 # --------------------------------------------------------------------------------------------- the check
 
 class C31:
@@ -341,8 +362,8 @@ class C31:
       res['outcome'] = 'accepted'
       res['same'] = (data == rec['data'])
       note('refcheck')
-      pr = modelref.check(lib, m2, limit=4)
-      res['problems'] = [[p.field, p.index, p.value, p.why] for p in pr]
+      pr = modelref.check(lib, m2, limit=4, fields=case.get('checkfields'))
+      res['problems'] = [[p.field, p.index, p.value, p.why, p.kind, p.num] for p in pr]
       if pr:
         return res
       diffs = modelcmp.compare(lib, rec['m'], m2, mode='exact', skip=('signature', 'flg_adhesion'))
@@ -369,33 +390,37 @@ class C31:
 
   def run_cases(self, rec, items, expect_reject=False):
     ck = self.ck
+    dsz = derived_sizes(self.lib)
     for case, status, payload in isolate.run(lambda c, note: self.child_case(rec, c, note), items, timeout=25,
                                              asan_log=ASAN_LOG):
       cls = case['cls']
+      field = case.get('field', cls)
       key = (rec['name'], case['what'], str(case['ops']))
       replay = dict(model=rec['name'], xml=rec.get('xml'), what=case['what'], ops=case['ops'])
       nontrivial = cls in ('index', 'size', 'header', 'truncate', 'intarray', 'resize')
       sample = dict(model=rec['name'], nbytes=rec['nbytes'], corruption=case['what'])
+      derived = cls in ('size', 'resize') and field in dsz
       if status == 'exc':
         raise RuntimeError('harness: exception in child: ' + payload)
       if status == 'timeout':
-        ck.label('outcome:timeout(inconclusive)')
-        ck.case(nontrivial=False, key=key, labels=['class:' + cls])
+        ck.case(nontrivial=False, key=key, labels=['class:' + cls, 'outcome:timeout(inconclusive)'])
         continue
       if status == 'crash':
         stage = payload.get('note') or '?'
         kind, fn, loc = isolate.innermost_frame(payload.get('report') or '')
-        where = os.path.basename(loc.split(':')[0]) if loc != '?' else '?'
         if '/shims/' in loc or '/verif/native' in loc:
           raise RuntimeError('harness: crash inside the harness/shims: %s %s' % (fn, loc))
-        msg = '%s: %s [%s in %s %s] during %s; rc=%s signal=%s\n%s' % (
-            case['what'], 'process died loading/using a corrupted MJB', kind, fn, loc, stage, payload.get('rc'),
-            payload.get('signal'), (payload.get('report') or '')[:1500])
-        field = case.get('field', cls)
-        if stage == 'load':
-          ck.violation(msg, replay, bucket='load-crash:%s:%s' % (kind, fn), fingerprint='mjb-load-crash:%s:%s' % (kind, fn))
-        elif stage == 'refcheck':
+        msg = '%s: process died [%s in %s %s] during %s; rc=%s signal=%s\n%s' % (
+            case['what'], kind, fn, loc, stage, payload.get('rc'), payload.get('signal'),
+            (payload.get('report') or '')[:1500])
+        if stage == 'refcheck':
           raise RuntimeError('harness: crash inside the reference checker: ' + msg[:800])
+        if derived:
+          ck.violation(msg + '\n(derived size %s is copied from the file without validation)' % field, replay,
+                       bucket='derived-size-trusted', fingerprint='mjb-derived-size-trusted')
+          self.note_family('mjb-derived-size-trusted', '%s -> crash in %s during %s' % (field, fn, stage))
+        elif stage == 'load':
+          ck.violation(msg, replay, bucket='load-crash:%s:%s' % (kind, fn), fingerprint='mjb-load-crash:%s:%s' % (kind, fn))
         elif cls in ('index', 'size', 'intarray', 'resize', 'header', 'truncate', 'splice'):
           ck.violation(msg, replay, bucket='postload-crash:%s' % field, fingerprint='mjb-postload-crash:%s' % field)
         else:
@@ -408,12 +433,13 @@ class C31:
       sample['outcome'] = out
       labels = ['class:' + cls]
       if out == 'mjerror':
-        if 'could not allocate' in r['msg'] or 'Could not allocate' in r['msg']:
+        if 'ould not allocate' in r['msg']:
           labels.append('outcome:alloc-cap(inconclusive)')
         else:
-          tag = r['msg'].split(':')[0][:40] + ':' + ' '.join(r['msg'].split(':', 1)[-1].split()[:5])
-          ck.violation('%s: mj_loadModelBuffer raised mju_error instead of warning+NULL: %s' % (case['what'], r['msg']),
-                       replay, bucket='load-mju_error:' + tag, fingerprint='mjb-load-mju_error:' + tag)
+          tag = ' '.join(r['msg'].replace(':', ' ').split()[:6])
+          ck.violation('%s: mj_loadModelBuffer raised mju_error (terminates the process by default) instead of '
+                       'warning+NULL: %s' % (case['what'], r['msg']), replay, bucket='load-mju_error:' + tag,
+                       fingerprint='mjb-load-mju_error:' + tag)
           labels.append('outcome:mju_error')
       elif out == 'rejected':
         if not r['warn']:
@@ -426,9 +452,14 @@ class C31:
         elif r['problems']:
           p = r['problems'][0]
           labels.append('outcome:accepted-INVALID')
-          ck.violation('%s: corrupted file accepted, but %s[%d]=%d: %s (warnings: %s)' % (
-              case['what'], p[0], p[1], p[2], p[3], r['warn']), replay, bucket='unvalidated:' + p[0],
-              fingerprint='mjb-unvalidated:' + p[0])
+          if derived:
+            fp, why = 'mjb-derived-size-trusted', 'derived size %s is copied from the file without validation' % field
+            self.note_family(fp, '%s -> %s out of range' % (field, p[0]))
+          else:
+            fp, why = problem_fingerprint(p)
+            self.note_family(fp, p[0])
+          ck.violation('%s: corrupted file accepted, but %s[%d]=%d: %s (%s; warnings: %s)' % (
+              case['what'], p[0], p[1], p[2], p[3], why, r['warn']), replay, bucket=fp, fingerprint=fp)
           sample['invalid'] = p[0]
         else:
           if expect_reject:
@@ -439,12 +470,18 @@ class C31:
             labels.append('post:' + r['post'].split(':')[0])
       ck.case(nontrivial=nontrivial, key=key, sample=sample, labels=labels)
 
+  def note_family(self, fp, detail):
+    fam = self.ck.extra.setdefault('finding_families', {})
+    lst = fam.setdefault(fp, [])
+    if detail not in lst and len(lst) < 200:
+      lst.append(detail)
+
   # ---- (c1) systematic enumeration over the reference table
-  def index_cases(self, rec, per_field=2):
+  def index_cases(self, rec, per_field=2, other=False):
     lib, m, lay = self.lib, rec['m'], rec['lay']
     out = []
 
-    def elem_cases(field, idxs, vals, why):
+    def elem_cases(field, idxs, vals, why, checkfields=None):
       off, dt, sh, nb = lay.arrays[field]
       isz = dt.itemsize
       flat = np.asarray(getattr(m, field)).ravel()
@@ -456,7 +493,7 @@ class C31:
             continue
           hx = i32(v) if isz == 4 else i64(v)
           out.append(dict(model=rec['name'], cls='index', field=field, what='%s[%d]: %d -> %d (%s)' % (
-              field, i, int(flat[i]), v, why), ops=[['set', off + i * isz, hx]]))
+              field, i, int(flat[i]), v, why), ops=[['set', off + i * isz, hx]], checkfields=checkfields))
     for r in modelref.relations(lib):
       f = r.field
       a = np.asarray(getattr(m, f)).ravel()
@@ -465,29 +502,39 @@ class C31:
       idxs = sorted(set([0, a.size - 1, a.size // 2]))[:per_field + 1]
       if r.kind == 'id':
         n = int(getattr(m, r.target))
-        elem_cases(f, idxs, [n, n + 7, r.lo - 1, -9, INT_MAX, INT_MIN], 'id >= %s or < %d' % (r.target, r.lo))
+        elem_cases(f, idxs, [n, n + 7, r.lo - 1, -9, INT_MAX, INT_MIN], 'id >= %s or < %d' % (r.target, r.lo), [f])
       elif r.kind == 'name':
         n = int(m.nnames)
-        elem_cases(f, idxs, [n, n + 9, -1, INT_MIN, INT_MAX], 'name address outside names')
+        elem_cases(f, idxs, [n, n + 9, -1, INT_MIN, INT_MAX], 'name address outside names', [f])
       elif r.kind == 'adrnum':
         n = int(getattr(m, r.target))
         k = np.asarray(getattr(m, r.num)).ravel()
         pos = np.flatnonzero(k > 0)
         i = int(pos[-1]) if pos.size else 0
         ki, ai = int(k[i]), int(a[i])
-        elem_cases(f, [i], [n - ki + 1, n + 3, -2, INT_MAX, INT_MAX - ki + 1], 'adr+num > %s' % r.target)
-        elem_cases(r.num, [i], [n - ai + 1, n + 5, -1, INT_MAX, INT_MIN], 'num too large / negative')
+        elem_cases(f, [i], [n - ki + 1, n + 3, -2, INT_MAX, INT_MAX - ki + 1], 'adr+num > %s' % r.target, [f, r.num])
+        elem_cases(r.num, [i], [n - ai + 1, n + 5, -1, INT_MAX, INT_MIN], 'num too large / negative', [f, r.num])
       else:
         elem_cases(f, idxs, [1 << 20, -2, INT_MAX, INT_MIN, 7], 'special relation')
+    if other:
+      # int arrays outside the reference table (types, flags, counts, bvh/graph payload ...): judged by the full
+      # reference check and by surviving mj_makeData + mj_forward
+      intable = set(r.field for r in modelref.relations(lib)) | set(r.num for r in modelref.relations(lib) if r.num)
+      for f, (off, dt, sh, nb) in lay.arrays.items():
+        if nb and dt.kind in 'iu' and dt.itemsize == 4 and f not in intable:
+          a = np.asarray(getattr(m, f)).ravel()
+          elem_cases(f, sorted(set([0, a.size - 1])), [-2, 1 << 20, INT_MAX, INT_MIN], 'int field outside the table')
     return out
 
   # ---- (c2) size fields
-  def size_cases(self, rec, names=None):
+  def size_cases(self, rec, names=None, quick=False):
     lib, m, lay = self.lib, rec['m'], rec['lay']
     out = []
     for s in (names or lib.model_sizes):
       v = int(getattr(m, s))
-      for nv in sorted(set([0, v - 1, v + 1, v + 16, 2 * v + 1, -1, INT_MAX, INT_MAX + 1, 1 << 40, -(1 << 40)])):
+      vals = [0, v - 1, v + 1, -1, INT_MAX + 1] if quick else [0, v - 1, v + 1, v + 16, 2 * v + 1, -1, INT_MAX,
+                                                                INT_MAX + 1, 1 << 40, -(1 << 40)]
+      for nv in sorted(set(vals)):
         if nv == v:
           continue
         ops = [['set', lay.sizes[s], i64(nv)]]
@@ -607,10 +654,10 @@ def main(ck):
   lib = c.lib
   rng = np.random.RandomState(ck.seed)
   ck.rule = ('models: Hypothesis rich models + corpus files (enumerated at run time); cases: one corruption of the '
-             'serialized MJB each (systematic out-of-range values for every relation of the reference table, size fields '
-             'with/without adjusted file length, header ints, truncations at all section boundaries, random int-array '
-             'elements, bytes, splices); non-trivial = the corruption hits a header/size/index field or truncates '
-             '(not float payload); distinct by (model, ops)')
+             'serialized MJB each (systematic out-of-range values for every relation of the reference table and for every '
+             'other int array, size fields with/without adjusted file length, header ints, truncations at all section '
+             'boundaries, random int-array elements, bytes, splices); non-trivial = the corruption hits a header/size/'
+             'index field or truncates (not float payload); distinct by (model, ops)')
   ck.assumptions = ['mjModel.signature is not compared after a binary round trip (mjmodel.h: compilation signature held by '
                     'the mjSpec; a loaded binary has no spec)',
                     'allocation requests above 256 MB caused by a corrupted size field are refused by a capped '
@@ -618,6 +665,7 @@ def main(ck):
                     'post-load crashes after corrupting non-reference payload (opt/vis/stat members, floats) are counted, '
                     'not judged (outside the statement)']
   rels = modelref.relations(lib)
+  quick = ck.quick
 
   # ---------- (a) round trips: generated + corpus
   recs = []
@@ -636,13 +684,13 @@ def main(ck):
             labels=['roundtrip:generated'] + [l for l in gm.labels() if l.split(':')[0] in (
                 'mesh', 'hfield', 'texture', 'material', 'default-class', 'frame', 'replicate', 'keyframe', 'tuple',
                 'geom-adhesion', 'pair-adhesion', 'gravcomp', 'surfacevel', 'numeric', 'text', 'pair', 'exclude')])
-  ok = ck.run_hypothesis(rt_test, st.tuples(gen_io.rich_models(max_bodies=4), mg.state_seed()), ck.budget(25, 1500),
-                         name='roundtrip', shrink=False)
-  files = [f for f in corpus.xml_files(lib.repo) if os.path.getsize(f) < (12000 if ck.quick else 10 ** 9)]
-  files = [files[i] for i in rng.permutation(len(files))][:ck.budget(45, 10 ** 6)]
+  ck.run_hypothesis(rt_test, st.tuples(gen_io.rich_models(max_bodies=4), mg.state_seed()), ck.budget(16, 1200),
+                    name='roundtrip', shrink=False)
+  files = [f for f in corpus.xml_files(lib.repo) if os.path.getsize(f) < (6000 if quick else 10 ** 9)]
+  files = [files[i] for i in rng.permutation(len(files))][:ck.budget(24, 10 ** 6)]
   crecs = []
   for f, m in corpus.iter_models(lib, files):
-    if int(lib.mj_sizeModel(m)) > (3 << 20 if ck.quick else 64 << 20):
+    if int(lib.mj_sizeModel(m)) > (1 << 20 if quick else 64 << 20):
       ck.label('corpus-skipped-large')
       continue
     try:
@@ -658,15 +706,11 @@ def main(ck):
   if not recs and not crecs:
     return
 
-  # ---------- choose models for corruption
-  small = [r for r in recs if r['nbytes'] < 200000]
-  small.sort(key=lambda r: -len(r['xml']))
-  gen_pick = small[:ck.budget(3, 12)]
-  cov = pick_cover(c, [r for r in crecs if r['nbytes'] < (400000 if ck.quick else 4 << 20)] + gen_pick, rels)
-  targets = []
-  for r in gen_pick + cov:
-    if r not in targets:
-      targets.append(r)
+  # ---------- choose models for corruption: the richest small generated models + a greedy cover of the relation table
+  small = sorted([r for r in recs if r['nbytes'] < 150000], key=lambda r: -len(r['xml']))
+  gen_pick = small[:ck.budget(2, 10)]
+  cov = pick_cover(c, gen_pick + [r for r in crecs if r['nbytes'] < (150000 if quick else 4 << 20)], rels)
+  targets = list(gen_pick) + [r for r in cov if r not in gen_pick]
   covered = set()
   for r in targets:
     for rel in rels:
@@ -675,23 +719,25 @@ def main(ck):
   ck.extra['relation_fields'] = len(rels)
   ck.extra['relation_fields_covered'] = len(covered)
   ck.extra['relation_fields_uncovered'] = sorted(set(r.field for r in rels) - covered)
-  ck.extra['corruption_models'] = [r['name'] for r in targets]
+  ck.extra['corruption_models'] = [dict(name=r['name'], nbytes=r['nbytes']) for r in targets]
 
-  # ---------- (c1) systematic index corruption, (c2) sizes, header, (b) truncations
+  # ---------- (c1) systematic index corruption: each field once (first model that has it), all fields on gen_pick[0]
   done_fields = set()
-  for r in targets:
-    cases = [x for x in c.index_cases(r) if (x['field'] not in done_fields) or r in gen_pick[:1]]
+  for k, r in enumerate(targets):
+    cases = [x for x in c.index_cases(r, per_field=1 if quick else 2, other=True) if x['field'] not in done_fields]
     done_fields.update(x['field'] for x in cases)
     c.run_cases(r, cases)
-  for r in gen_pick[:ck.budget(2, 6)]:
-    c.run_cases(r, c.size_cases(r))
+  ck.extra['int_fields_enumerated'] = len(done_fields)
+  # ---------- (c2) sizes + header, (b) truncations
+  for r in gen_pick[:ck.budget(1, 5)]:
+    c.run_cases(r, c.size_cases(r, quick=quick))
     c.run_cases(r, c.header_cases(r))
   for r in targets[:ck.budget(2, 8)]:
-    every = (not ck.quick) and r['nbytes'] < 60000
-    c.run_truncations(r, c.truncation_lengths(r, rng, ck.budget(120, 3000), every=every))
+    every = (not quick) and r['nbytes'] < 60000
+    c.run_truncations(r, c.truncation_lengths(r, rng, ck.budget(60, 3000), every=every))
 
   # ---------- (c3) random corruptions drawn by Hypothesis
-  pool = (gen_pick + cov)[:ck.budget(4, 16)]
+  pool = targets[:ck.budget(4, 16)]
 
   def rnd_test(case):
     idx, cors = case
@@ -702,7 +748,8 @@ def main(ck):
   infos = [lay_info(lib, r) for r in pool]
   strat = st.integers(0, len(pool) - 1).flatmap(
       lambda i: st.tuples(st.just(i), random_corruptions(infos[i], 40)))
-  ck.run_hypothesis(rnd_test, strat, ck.budget(20, 1500), name='random-corruption', shrink=False)
+  ck.run_hypothesis(rnd_test, strat, ck.budget(10, 1500), name='random-corruption', shrink=False)
+  ck.extra['alloc_cap_refusals'] = int(c.caph.c31_refused_count())
 
   # ---------- (d) libFuzzer
   fuzz(ck, c, recs + crecs)
